@@ -274,6 +274,23 @@ pub fn tree_shake(bytecode: Bytecode, entry: usize) -> Bytecode {
                 &mut used_tuples,
                 &mut used_resources,
             );
+            // The builtin's own (never-receiving) function type, which the IsType
+            // compatibility table looks up for builtin values, like the process types above.
+            if let Some(callable_type_id) = bytecode.types.iter().position(|t| {
+                matches!(t, Type::Callable { parameter, result, receive }
+                    if *parameter == builtin.param_type
+                        && *result == builtin.result_type
+                        && bytecode.types.get(*receive).is_some_and(|r| r.is_never()))
+            }) {
+                collect_type_refs(
+                    callable_type_id,
+                    &bytecode.types,
+                    &bytecode.tuples,
+                    &mut used_types,
+                    &mut used_tuples,
+                    &mut used_resources,
+                );
+            }
         }
     }
 
